@@ -47,6 +47,7 @@ struct KeyLess {
 };
 typedef std::map<Bytes, Bytes, KeyLess> TMap;
 
+enum { NULLKEY = 0x100 };
 enum { T_PUT, T_GET, T_REMOVE, T_CLEAR, T_SIZE, T_MIN, T_MAX, T_WALK, T_ABANDON, T_NEAREST, T_LOCKEDWALK, T_BULK, T_DEBUG, T_NOPS };
 static const std::vector<std::string> T_NAMES = {"put", "get", "remove", "clear", "size", "find_min", "find_max", "walk", "abandon",
                                                  "find_nearest", "lockedwalk", "bulk", "debug"};
@@ -102,6 +103,7 @@ struct TreeWorld : World {
         auto putd = [&]() {
             int api = str ? (int)r.below(4) : 0;
             int klass = (api >= 2) ? (r.chance(1, 2) ? 1 : 5) : (int)r.below(6);
+            if (api == 0 && r.chance(1, 12)) klass = 6;
             return api | (klass << 2);
         };
         if (mode == "threads") {
@@ -137,6 +139,7 @@ struct TreeWorld : World {
         case T_BULK: op.a = (int)r.below(4); op.b = r.range(2, Uc); break;
         default: break;
         }
+        if (prop == "C14" && r.chance(1, 8) && (op.k == T_PUT || op.k == T_GET || op.k == T_REMOVE)) { op.d &= ~3; op.d |= NULLKEY; }
         (void)g;
         return op;
     }
@@ -172,7 +175,8 @@ struct TreeWorld : World {
     const Bytes &key(int a) const { int n = (int)keys.size(); return keys[((a % n) + n) % n]; }
     // representative spelling of a key: the first universe key equal to it under the ordering
     Bytes rep(const Bytes &k) const { cmp_fn f = order(); for (auto &u : keys) if (f(u.data(), u.size(), k.data(), k.size()) == 0) return u; return k; }
-    Bytes value(const Op &op) const { return gen_value(op.b, op.c, (op.d >> 2) & 7); }
+    // class 6 = no value at all (NULL, 0): the table used as a set, as the library's own tests do
+    Bytes value(const Op &op) const { if (((op.d >> 2) & 7) == 6) return Bytes(); return gen_value(op.b, op.c, (op.d >> 2) & 7); }
     Model *new_model() override { return new TreeModel(this, order()); }
 
     // ---------------- SUT
@@ -211,7 +215,14 @@ struct TreeWorld : World {
             Bytes k = key(op.a), v = value(op);
             int api = op.d & 3; bool ok = false;
             CallerBuf kb(k), vb(v);
-            if (api == 0) TCALL(x, ok = t->putobj(t, kb.p, kb.n, vb.p, vb.n));
+            if (op.d & NULLKEY) { TCALL(x, ok = (api == 0) ? t->putobj(t, nullptr, 0, vb.p, vb.n) : t->put(t, nullptr, vb.p, vb.n)); return ok ? R_ok() : R_fail(); }
+            if (api == 0 && v.empty()) {
+                // replacing an existing value by "no value" is outside every statement: only issue it when the key has no value yet
+                void *cur; size_t cs; sim_fault_suspend(true); TCALL(x, cur = t->getobj(t, kb.p, kb.n, &cs, false)); sim_fault_suspend(false);
+                if (cur) return R_ok("skip");
+                TCALL(x, ok = t->putobj(t, kb.p, kb.n, nullptr, 0));
+            }
+            else if (api == 0) TCALL(x, ok = t->putobj(t, kb.p, kb.n, vb.p, vb.n));
             else if (api == 1) TCALL(x, ok = t->put(t, (const char *)kb.p, vb.p, vb.n));
             else if (api == 2) TCALL(x, ok = t->putstr(t, (const char *)kb.p, (const char *)vb.p));
             else TCALL(x, ok = t->putstrf(t, (const char *)kb.p, "%s", (const char *)vb.p));
@@ -221,6 +232,7 @@ struct TreeWorld : World {
             Bytes k = key(op.a);
             bool newmem = op.d & 1; int api = (op.d >> 1) & 3;
             size_t sz = (size_t)-1; void *p = nullptr;
+            if (op.d & NULLKEY) { TCALL(x, p = t->getobj(t, nullptr, 0, &sz, newmem)); if (p && newmem) free(p); return p ? R_ok("?") : R_fail(); }
             {
                 CallerBuf kb(k);
                 if (api == 0) TCALL(x, p = t->getobj(t, kb.p, kb.n, &sz, newmem));
@@ -244,6 +256,7 @@ struct TreeWorld : World {
         case T_REMOVE: {
             Bytes k = key(op.a); bool ok;
             CallerBuf kb(k);
+            if (op.d & NULLKEY) { TCALL(x, ok = t->removeobj(t, nullptr, 0)); return ok ? R_ok() : R_fail(); }
             if ((op.d & 1) == 0) TCALL(x, ok = t->removeobj(t, kb.p, kb.n));
             else TCALL(x, ok = t->remove(t, (const char *)kb.p));
             return ok ? R_ok() : R_fail();
@@ -370,7 +383,7 @@ struct TreeWorld : World {
             }
             Bytes k, v;
             if (o.name) k.assign((const char *)o.name, o.namesize); else k = "(null-name)";
-            if (o.data) v.assign((const char *)o.data, o.datasize); else v = "(null-data)";
+            if (o.data) v.assign((const char *)o.data, o.datasize); else if (o.datasize != 0 && !(sim_fault_fired() > 0)) v = "(null-data)";
             if (newmem) { if (o.name) x.hold(o.name, k, "treetbl.getnext(newmem).name"); if (o.data) x.hold(o.data, v, "treetbl.getnext(newmem).data"); }
             enc(out, k); enc(out, v);
             if ((size_t)++cnt > guard) { sut_abandon(); x.fail("walk-mismatch", "result", "traversal does not end (more elements than keys)"); }
@@ -448,24 +461,28 @@ struct TreeWorld : World {
 
 std::string TreeModel::dump() const {
     Bytes o = "n=" + num((long long)m.size()) + ";";
-    for (auto &kv : m) { enc(o, w->rep(kv.first)); enc(o, kv.second); }
+    for (auto &kv : m) { if (kv.second.empty()) continue; enc(o, w->rep(kv.first)); enc(o, kv.second); }   // value-less keys are invisible to lookups; size and walks cover them
     return o;
 }
 Result TreeModel::apply(const Op &op) {
     switch (op.k) {
     case T_PUT: {
+        if (op.d & NULLKEY) return R_fail();
         Bytes k = w->key(op.a), v = w->value(op);
         if ((op.d & 3) >= 2) v = Bytes(v.c_str()) + Bytes(1, '\0');   // string APIs store strlen+1 bytes
         auto it = m.find(k);
+        if (v.empty() && it != m.end() && !it->second.empty()) return R_ok("skip");
         if (it != m.end()) it->second = v; else m.emplace(k, v);
         return R_ok();
     }
     case T_GET: {
+        if (op.d & NULLKEY) return R_fail();
         auto it = m.find(w->key(op.a));
-        if (it == m.end()) return R_fail();
+        if (it == m.end() || it->second.empty()) return R_fail();    // a key stored without a value has nothing to return
         return R_ok(encs(it->second));
     }
     case T_REMOVE: {
+        if (op.d & NULLKEY) return R_fail();
         auto it = m.find(w->key(op.a));
         if (it == m.end()) return R_fail();
         m.erase(it); return R_ok();
